@@ -723,11 +723,41 @@ void save_trigger_read(struct mcount_thread_data *mtdp, struct mcount_ret_stack 
 	if (rstack->flags & MCOUNT_FL_ARGUMENT)
 		arg_data += sizeof(uint32_t) + *(uint32_t *)arg_data;
 
+	if (!diff) {
+		size_t need = 0;
+
+		/* the diff events at exit take the same room: save both or neither */
+		for (i = 0; i < ARRAY_SIZE(read_events); i++) {
+			if (type & read_events[i].type)
+				need += EVTBUF_HDR + read_events[i].size;
+		}
+
+		if (ptr - 2 * need < arg_data)
+			return;
+	}
+
 	for (i = 0; i < ARRAY_SIZE(read_events); i++) {
 		struct read_event_data *red = &read_events[i];
+		struct mcount_event *old_event = NULL;
 
 		if (!(type & red->type))
 			continue;
+
+		if (diff) {
+			unsigned idx;
+
+			/* nothing to diff without the read event saved at entry */
+			for (idx = 0; idx < rstack->nr_events; idx++) {
+				old_event = get_event_pointer(ptr, idx);
+				if (old_event->id == red->id_read)
+					break;
+
+				old_event = NULL;
+			}
+
+			if (old_event == NULL)
+				continue;
+		}
 
 		evsize = EVTBUF_HDR + red->size;
 		event = ptr - evsize;
@@ -744,22 +774,9 @@ void save_trigger_read(struct mcount_thread_data *mtdp, struct mcount_ret_stack 
 		if (red->save(mtdp, event->data) < 0)
 			continue;
 
-		if (diff) {
-			struct mcount_event *old_event = NULL;
-			unsigned idx;
-
-			for (idx = 0; idx < rstack->nr_events; idx++) {
-				old_event = get_event_pointer(ptr, idx);
-				if (old_event->id == event->id)
-					break;
-
-				old_event = NULL;
-			}
-
-			if (old_event) {
-				event->id = red->id_diff;
-				red->diff(mtdp, event->data, old_event->data);
-			}
+		if (old_event) {
+			event->id = red->id_diff;
+			red->diff(mtdp, event->data, old_event->data);
 		}
 
 		ptr = event;
